@@ -36,6 +36,9 @@ def _work(task):
     if kind == 'sess':
         _, R, seed, first, count, ext, fresh = task
         return c20.work_sessions(R, seed, first, count, ext, fresh)
+    if kind == 'wide':
+        _, R, j = task
+        return c20.work_wide(R, j)
     _, R, tier, ti = task
     return c20.work_grid(R, tier, ti)
 
@@ -53,6 +56,10 @@ def run(R, tier, seed):
         for ti in range(len(G)):
             tasks.append(('grid', R, tier, ti))
             arm.append('grid')
+    if not os.environ.get('VERIF_C20_NOGRID'):
+        for j in range(len(c20.wide_sessions())):
+            tasks.append(('wide', R, j))
+            arm.append('wide')
     for first in range(0, P['sessions'], P['chunk']):
         tasks.append(('sess', R, seed, first, min(P['chunk'], P['sessions'] - first), False, P['fresh']))
         arm.append('random')
